@@ -81,16 +81,22 @@ theorem loadI32_kernel (b : Bytes) (i : Nat) :
 
 /-- first word of `Binary.WriteMessageBegin` — Model/Wire `msgHeader` -/
 theorem msgWord_Write_eq (t : BitVec 32) : (k_msgWord_Write t).toNat = msgHeader t.toInt := by
-  simp [k_msgWord_Write, msgHeader, ofInt_toInt, Facts.msgVersion1, Facts.msgTypeMask]
+  first
+    | (simp [k_msgWord_Write, msgHeader, ofInt_toInt, Facts.msgVersion1, Facts.msgTypeMask]; done)
+    | (unfold k_msgWord_Write; rw [BitVec.or_comm]; simp [msgHeader, ofInt_toInt, Facts.msgVersion1, Facts.msgTypeMask])  -- operands of `|` swapped in the source
 
 /-- first word of `Binary.AppendMessageBegin` -/
 theorem msgWord_Append_eq (t : BitVec 32) : (k_msgWord_Append t).toNat = msgHeader t.toInt := by
-  simp [k_msgWord_Append, msgHeader, ofInt_toInt, Facts.msgVersion1, Facts.msgTypeMask]
+  first
+    | (simp [k_msgWord_Append, msgHeader, ofInt_toInt, Facts.msgVersion1, Facts.msgTypeMask]; done)
+    | (unfold k_msgWord_Append; rw [BitVec.or_comm]; simp [msgHeader, ofInt_toInt, Facts.msgVersion1, Facts.msgTypeMask])  -- operands of `|` swapped in the source
 
 /-- first word of `(*BufferWriter).WriteMessageBegin` -/
 theorem msgWord_BufferWriter_eq (t : BitVec 32) :
     (k_msgWord_BufferWriter t).toNat = msgHeader t.toInt := by
-  simp [k_msgWord_BufferWriter, msgHeader, ofInt_toInt, Facts.msgVersion1, Facts.msgTypeMask]
+  first
+    | (simp [k_msgWord_BufferWriter, msgHeader, ofInt_toInt, Facts.msgVersion1, Facts.msgTypeMask]; done)
+    | (unfold k_msgWord_BufferWriter; rw [BitVec.or_comm]; simp [msgHeader, ofInt_toInt, Facts.msgVersion1, Facts.msgTypeMask])  -- operands of `|` swapped in the source
 
 /-- `header&msgVersionMask != msgVersion1` of `Binary.ReadMessageBegin` — the guard of Model/Wire
     `binReadMessageBegin` -/
